@@ -35,6 +35,17 @@ def impl_oracle(c):
     if kind:
         return kind, "%s: %s" % (c["op"], o["crash"][:160])
     op = c["op"]
+    if op == "file":
+        return J.file_oracle(c)
+    if op in ("script", "rstream", "rseries", "reuse", "targets", "lexfn"):
+        return J.usage_oracle(c)
+    if op in ("tojson", "unmarshal") and not o.get("ok") and c.get("want") and "E(" not in c["want"] \
+            and c["stream"] in ("numlex", "words", "escapes", "big"):
+        return "rejected", "a document of the documented syntax denoting %s was rejected (%s)" % (
+            c["want"], o.get("errs") or o.get("first") or o.get("res"))
+    if op == "tojson" and c.get("reject") and o.get("ok"):
+        return "accepted-invalid", "accepted %s, which has no value in the documented syntax; emitted %s" % (
+            c.get("src"), o.get("text"))
     if op in ("tojson", "unmarshal") and o.get("ok"):
         if o.get("valid") is False:
             return "invalid-json", "accepted, but the emitted text %s is not valid JSON" % o.get("text")
@@ -99,7 +110,7 @@ def run(ck):
                                                        and not c.get("reject"))
         if c["op"] in ("tojson", "unmarshal") and o.get("ok"):
             accepted += 1
-        ck.count(c["stream"] + ":" + c["op"], key=(c["op"], c["in"]), trivial=trivial)
+        ck.count(c["stream"] + ":" + c["op"], key=(c["op"], c["in"], c.get("script")), trivial=trivial)
         bad = impl_oracle(c)
         if bad:
             key = "impl:%s:%s" % (bad[0], c["stream"])
@@ -141,7 +152,16 @@ def run(ck):
              "fields matched case-insensitively, interface{}) with seeded defects (unknown field, type mismatch, integer "
              "overflow, unknown type) decoded by DecodeSeries into the real struct types and compared with "
              "reflect.DeepEqual; documents with trailing content; standard-library "
-             "correspondence inputs. A case is trivial if its input is empty or it was rejected; distinct = distinct "
+             "correspondence inputs. Usage patterns (round 3): every string up to length 3 over 0179xeE.-+af and "
+             "up to 4 over 01x.e- as a document (a number literal of the documented syntax must be emitted with its "
+             "value, a number token without value rejected); keyword prefixes and near-keywords as value, bare key, "
+             "quoted key, list element, dotted list and type name; digit counts and value bounds of every escape "
+             "kind (octal, \\x, \\u, \\U, surrogates) against strconv.Unquote; tokens across byte 4096 and longer "
+             "than bufio's buffer, nesting 1000 deep; ONE Decoder driven by a script of More / Decode / DecodeSeries "
+             "calls with intended values; jsonx.Unmarshal into 13 target types against json.Unmarshal of ToJSON's "
+             "output, and into nil / non-pointer / nil-pointer targets; documents through the entry points one after "
+             "the other and from 8 goroutines; the file-level entry points (ReadFile, ReadFileMaybeJSON, "
+             "ReadSeriesFile) on documents with trailing content. A case is trivial if its input is empty or it was rejected; distinct = distinct "
              "(operation, input bytes).",
         assumptions=["strconv.ParseFloat / json.Marshal(float64) satisfy the shortest-round-trip law",
                      "a Go string that is not valid UTF-8 denotes its U+FFFD-sanitised form"])
